@@ -97,6 +97,15 @@ def patch_host(host):
         socket.AddressFamily = enum.IntEnum('AddressFamily', {v: int(k) for k, v in host['AddressFamily'].items()})
     if 'SocketKind' in host:
         socket.SocketKind = enum.IntEnum('SocketKind', {v: int(k) for k, v in host['SocketKind'].items()})
+    if host.get('shift_constants'):
+        # another platform numbers its constants differently: every public integer constant of the host modules moves
+        for mod in (socket, errno, signal):
+            for nm, val in list(vars(mod).items()):
+                if nm.isupper() and isinstance(val, int) and not isinstance(val, bool):
+                    try:
+                        setattr(mod, nm, int(val) + int(host['shift_constants']))
+                    except Exception:  # noqa
+                        pass
     if 'SOL_SOCKET' in host:
         socket.SOL_SOCKET = host['SOL_SOCKET']
 
